@@ -505,6 +505,13 @@ func shapeSources() []string {
 		"F64 in [1, 2, 3]", "F32 in [1, 2]", "2.5 in [1, 2, 3]", "1.5 in AI", "F64 in AI", "F64 in 1..3", "U8 in [200, 404, 500]", "U16 in [80, 443, 70000]", "I8 in [100, 300]", "I16 in [44, 65580]",
 		"Sum(1, 2) + Sum(1)", "Sum(1) + Sum(10, 20)", "Sum(1, 2, 3) + Sum()", "[Fast(1, 2), Fast(3)]", "Fast(1) + Fast(1, 2, 3)", "St.Get() + P.Get()", "Add(1, 2) + Add(3, 4) + Inc(5)",
 	}
+	// `**` on two run-time ints whose exact power is at the edge of the 64-bit range (an integer fast path must agree with
+	// the documented float result)
+	for _, be := range [][2]string{{"4294967296", "2"}, {"3037000500", "2"}, {"-4294967296", "2"}, {"2147483648", "2"}, {"65536", "4"}, {"55109", "4"}, {"-65536", "4"},
+		{"256", "8"}, {"-256", "8"}, {"235", "8"}, {"2", "63"}, {"2", "64"}, {"-2", "63"}, {"3", "40"}, {"10", "19"}, {"7", "23"}} {
+		out = append(out, "(I - I + "+be[0]+") ** (I - I + "+be[1]+")")
+	}
+	out = append(out, "(I - I + 4294967296) ** 2", "I64 ** 2", "(I - I + 65536) ** 4 > 0")
 	// mixed-kind arithmetic whose result meets an operation that is SPECIALISED on the static kind (== on two ints, the
 	// in-array rewrite): the static type of `a op b` has to be the dynamic one
 	pairs := [][2]string{{"I", "I8"}, {"I8", "I"}, {"I", "I16"}, {"I16", "I"}, {"I", "I32"}, {"I32", "I"}, {"I", "I64"}, {"I64", "I"}, {"I", "U8"}, {"U8", "I"},
